@@ -24,6 +24,7 @@ pub fn doc_labels(ctx: &mut Ctx, d: &Doc) {
                 ctx.label(if i == 0 { "comment:before-first-field" } else { "comment:between-fields" });
             }
             ctx.label_if(f.lines.len() > 1, "multi-line-value");
+            ctx.label_if(f.lines.iter().skip(1).any(|l| l.is_empty()), "whitespace-only-continuation-line");
             ctx.label_if(f.lines[0].is_empty() && f.lines.len() > 1, "empty-first-line");
             ctx.label_if(f.lines.len() == 1 && f.lines[0].is_empty(), "empty-value");
             ctx.label_if(f.colon_ws.is_empty(), "no-space-after-colon");
@@ -170,6 +171,8 @@ impl PropImpl for C03 {
         } else {
             t.below(npos)
         };
+        // at the very end of the document the corrupting line may itself lack the final newline
+        let line = if pos == lines.len() && t.chance(1, 2) { line.trim_end_matches('\n').to_string() } else { line };
         lines.insert(pos, line);
         Case::Corrupted { doc: d, kind, text: lines.concat() }
     }
